@@ -11,7 +11,7 @@ from .facts import Run, cond_pol, normal
 from .interp import Ctx, Frame, analyse_function, analyse_method, analyse_method_result_call, annotation_kind, exc_is_subclass
 from .model import AnalysisError, iter_functions
 from .report import RuleResult
-from .terms import Child, Const, Fn, New, Sym, Term, Val
+from .terms import Child, Const, Fn, New, Seq, Sym, Term, Val
 
 
 def _unwrap_depends(r):
@@ -370,6 +370,58 @@ def rule_SO(run: Run) -> RuleResult:
         elif tk not in ("Const(None)",):
             ok_r = False
     res.add("labrea.coalesce.Coalesce._delegate:raises the last member's error when none succeeds", ok_r, f, ln, f"raises {sorted(set(shapes))}", nec)
+    # ---- CaseWhen.when: cases are tried in the order in which they were added — the new (condition, result) pair goes after
+    # the existing ones in the list handed to the new CaseWhen
+    cw = repo.cls("CaseWhen")
+    wr = cw.find_method("when")
+    if wr is None:
+        raise AnalysisError("CaseWhen.when not found")
+    iparams = [a.arg for a in cw.method("__init__").args.posonlyargs + cw.method("__init__").args.args][1:]
+    ci_ = iparams.index("cases") if "cases" in iparams else 1
+    wparams = [a.arg for a in wr[1].args.posonlyargs + wr[1].args.args][1:]
+
+    def order(t, out):
+        from .interp import Coll
+        if isinstance(t, Seq):
+            for it in t.items:
+                order(it, out)
+        elif isinstance(t, Sym) and t.head in ("star", "binop:Add", "list", "tuple", "call:list", "call:tuple", "call:chain", "call:itertools.chain"):
+            for a in t.args:
+                order(a, out)
+        else:
+            k = t.key()
+            if "Child(cases" in k:
+                out.append("old")
+            elif any(w_ in k for w_ in wparams):
+                out.append("new")
+            else:
+                out.append("?")
+    ok_w, d_w, n_w = True, "", 0
+    for p in analyse_method(Ctx(repo), cw, "when"):
+        if p.status != "ret":
+            continue
+        r = p.ret
+        n_w += 1
+        ctor = getattr(r, "ctor", None)
+        if not (isinstance(r, New) and r.cls.name == "CaseWhen" and ctor is not None):
+            ok_w, d_w = False, f"when() returns {r.key()[:80] if r is not None else None}, not a new CaseWhen"
+            continue
+        arg = ctor[1].get("cases", ctor[0][ci_] if len(ctor[0]) > ci_ else None)
+        seq: List[str] = []
+        if arg is not None:
+            if isinstance(arg, Seq):
+                for it in arg.items:
+                    if isinstance(it, Seq) and not any(isinstance(x, Sym) and x.head == "star" for x in it.items):
+                        seq.append("new" if any(w_ in it.key() for w_ in wparams) else "?")     # one (condition, result) pair
+                    else:
+                        order(it, seq)
+            else:
+                order(arg, seq)
+        collapsed = [x for i_, x in enumerate(seq) if i_ == 0 or seq[i_ - 1] != x]
+        if collapsed != ["old", "new"]:
+            ok_w, d_w = False, f"the list handed to the new CaseWhen holds {collapsed or 'nothing recognisable'} (existing cases = old, the added pair = new): the added case is not tried last"
+    res.add("labrea.conditional.CaseWhen.when:the added case is tried after the existing ones", ok_w and n_w > 0, cw.module.relpath, wr[1].lineno,
+            d_w or f"{n_w} paths: [*existing cases, (condition, result)]", nec)
     return res
 
 
@@ -1154,6 +1206,30 @@ def rule_RG(run: Run) -> RuleResult:
                 m_ = _re.match(r"call:isinstance\((\w+),(.*)\)$", k_)
                 if m_ and "alias" in m_.group(1):
                     kinds |= {x.split(".")[-1] for x in _re.findall(r"(?:name|class|ext)<([^>]+)>", m_.group(2))}
+        # the aliases are walked once per interface member: they are handed to Implementation as a collection that can be
+        # walked again (a tuple / list), never as an iterator (iter(...), map(...), a generator) that is empty after the first member
+        probe = ast.parse("def __probe__(interface_, alias, cls):\n    return implements(interface_, alias=alias)(cls)").body[0]
+        for n_ in ast.walk(probe):
+            if hasattr(n_, "lineno"):
+                n_.lineno = n_.end_lineno = fi_.node.lineno
+        iparams_ = [a.arg for a in fn.args.posonlyargs + fn.args.args][1:]
+        ai_ = iparams_.index("aliases") if "aliases" in iparams_ else len(iparams_) - 1
+        shapes_, ok_it = set(), True
+        for p_ in analyse_function(Ctx(repo), fi_.module, probe):
+            r_ = p_.ret
+            if p_.status == "ret" and isinstance(r_, Sym) and r_.head == "new:Implementation" and len(r_.args) > ai_:
+                a_ = r_.args[ai_]
+                if isinstance(a_, Sym) and a_.head == "kw:aliases" and a_.args:
+                    a_ = a_.args[0]
+                hd_ = a_.head if isinstance(a_, Sym) else type(a_).__name__
+                shapes_.add(hd_)
+                from .interp import Coll as _Coll
+                if (isinstance(a_, Sym) and hd_.split(":")[-1] in ("iter", "map", "filter", "zip", "reversed", "chain", "itertools.chain", "islice", "itertools.islice")) or \
+                        (isinstance(a_, _Coll) and getattr(a_, "kind", "") == "gen"):
+                    ok_it = False
+        res.add(f"{q_}:the aliases are a collection that can be walked once per member", ok_it and bool(shapes_), fi_.module.relpath, fi_.node.lineno,
+                f"handed to Implementation as {sorted(shapes_)}" + ("" if ok_it else ": an iterator is exhausted after the first interface member — every later member keeps its default"),
+                "every member of the interface is registered under every alias (C07, C19): with a one-shot iterator only the first member is")
         ok_ = kinds == {"list"}
         res.add(f"{q_}:only a list of aliases is registered element-wise", ok_, fi_.module.relpath, fi_.node.lineno,
                 f"the alias argument is split when it is a {sorted(kinds)}" + ("" if ok_ else ": a tuple (or other hashable sequence) is a single alias"),
@@ -1197,6 +1273,24 @@ def rule_ID(run: Run) -> RuleResult:
             res.add(f"labrea.interface.Interface.__init__:{nm}(…) receives the interface dispatch", ok, fl_, ln_, f"{nm}({how})", nec)
     if n < 4:
         res.add("labrea.interface.Interface.__init__:four member kinds handled", False, f, fn.lineno, f"only {n} dispatch-setting sites (annotation, function, Dataset, plain value)", nec)
+    # an abstract member is declared for an annotated name only when the name is public and the class body gives it no value:
+    # a value found there is the member's default implementation (the second loop adopts it; for a value that already is a
+    # dataset it only sets the dispatch, so an abstract dataset stored first would stay and the default would be lost)
+    import re as _re0
+    n_abs, ok_abs, why_abs = 0, True, ""
+    for p in ips_all:
+        for e in p.events:
+            if e.kind == "call" and e.text == "labrea.dataset.abstractdataset":
+                n_abs += 1
+                at0 = Frame.atoms(p.conds[:e.ncond])
+                names_ = {m_.group(1) for k_ in at0 for m_ in [_re0.match(r"cmp:In\((.+),dct\)$", k_)] if m_}
+                good = any(at0.get(f"cmp:In({x_},dct)") is False and at0.get(f"call:startswith({x_},Const('_'))") is False for x_ in names_)
+                if not good:
+                    ok_abs = False
+                    why_abs = (f"abstractdataset(…) at line {e.line} is reached without having established that the annotated name is public and has no value in the class body "
+                               f"(conditions {[c[0][:40] for c in p.conds[:e.ncond]]})")
+    res.add("labrea.interface.Interface.__init__:abstract member only for a public annotated name without a value", ok_abs and n_abs > 0, f, fn.lineno,
+            why_abs or f"{n_abs} paths declare an abstract member, each after `name in dct` and the underscore test came out false", nec)
     # every member that passes the underscore guard gets the dispatch, whatever its kind
     ips = [p for p in ips_all if p.status == "ret"]
     ok = bool(ips)
